@@ -48,6 +48,7 @@ type txCase struct {
 	mergeCommit    int
 	rejected       int
 	excluded       int
+	newBranches    int
 	hotPKs         []int // rows of the current write target changed by other open transactions
 	headHash       map[string]string
 	headUnsure     map[string]bool
@@ -301,56 +302,71 @@ func (c *txCase) afterStmt(s *txSess, failed bool) {
 	c.m.end(s)
 }
 
-func (c *txCase) doRead(s *txSess) {
-	rt := c.rt
-	sc := c.m.db.schemas[rapid.IntRange(0, len(c.m.db.schemas)-1).Draw(rt, "read.table")]
-	nb := len(c.m.db.branches)
-	variants := []string{"cur", "cur", "cur", "curq"}
-	if nb > 1 {
-		variants = append(variants, "other", "other", "asof", "asof", "asofhead")
-	} else {
-		variants = append(variants, "asofhead")
+// lateBranches lists the branches that exist now but not in s's snapshot (created by another
+// session after s's transaction began).
+func (c *txCase) lateBranches(s *txSess) []string {
+	if !s.inTx || len(s.snap.branches) == len(c.m.db.branches) {
+		return nil
 	}
-	v := rapid.SampledFrom(variants).Draw(rt, "read.variant")
-	tgt := txTarget{s.cur(), sc.name}
-	head := false
-	var ref string
-	// half of the reads inside a transaction go back to something the transaction has read before
-	if n := len(s.readOrder); s.inTx && n > 0 && rapid.IntRange(0, 9).Draw(rt, "read.again") < 5 {
-		prev := s.readOrder[rapid.IntRange(0, n-1).Draw(rt, "read.prev")]
-		tgt, head = prev.tgt, prev.head
-		sc = c.m.db.schema(tgt.table)
-		v = "again"
+	have := map[string]bool{}
+	for _, b := range s.snap.branches {
+		have[b] = true
 	}
-	switch v {
-	case "again":
-		if head {
-			ref = tgt.table + " AS OF '" + tgt.branch + "'"
-		} else {
-			ref = c.workingRef(s, tgt, false)
+	var out []string
+	for _, b := range c.m.db.branches {
+		if !have[b] {
+			out = append(out, b)
 		}
-	case "cur":
-		ref = tgt.table
-	case "curq":
-		ref = c.qualified(tgt.branch, tgt.table)
-	case "other":
-		tgt.branch = rapid.SampledFrom(c.m.db.branches).Draw(rt, "read.branch")
-		ref = c.qualified(tgt.branch, tgt.table)
-	case "asof":
-		tgt.branch = rapid.SampledFrom(c.m.db.branches).Draw(rt, "read.branch")
-		head = true
-		ref = tgt.table + " AS OF '" + tgt.branch + "'"
-	case "asofhead":
-		head = true
-		ref = tgt.table + " AS OF 'HEAD'"
 	}
-	q := "SELECT " + sc.colList() + " FROM " + ref
-	pk := 0
-	if rapid.IntRange(0, 3).Draw(rt, "read.point") == 0 {
-		pk = rapid.IntRange(1, c.cfg.pkMax).Draw(rt, "read.pk")
-		q += fmt.Sprintf(" WHERE %s=%d", sc.cols[0], pk)
+	return out
+}
+
+// readOutsideSnapshot lets a transaction reference a branch that did not exist when its snapshot
+// was taken (qualified name, AS OF, USE). Refs are part of the snapshot, so dolt
+// answers "branch not found"; what such a statement returns is not asserted (the snapshot has
+// nothing to say about that branch). What is asserted is everything afterwards: the statement must
+// not move the transaction's snapshot — all later reads still equal snapshot (+) own writes and
+// the commit still merges against the original base.
+func (c *txCase) readOutsideSnapshot(s *txSess, sc *txSchema, b string) {
+	var q string
+	// dolt_checkout is not used here: on the unmodified tree a dolt_checkout of such a branch fails
+	// with "branch not found" but still leaves the session pointing at it (every later unqualified
+	// statement then fails too) — an error-atomicity matter of dolt_checkout, not of the snapshot.
+	switch rapid.IntRange(0, 2).Draw(c.rt, "late.form") {
+	case 0:
+		q = "SELECT " + sc.colList() + " FROM " + sc.name + " AS OF '" + b + "'"
+	case 1:
+		q = "USE `" + c.m.dbn + "/" + b + "`"
+	default:
+		q = "SELECT " + sc.colList() + " FROM " + c.qualified(b, sc.name)
 	}
-	c.m.begin(s)
+	s.lateRefs++
+	defer c.sweepSnapshot(s) // whatever the statement answered: the snapshot must be where it was
+	r, err := s.conn.Query(q)
+	if err != nil {
+		c.logf("%s: %s -> %s", s.name, q, errStr(err))
+		c.class("late_branch_reference_rejected")
+		return
+	}
+	c.logf("%s: %s -> %s (branch created after the snapshot)", s.name, q, vsql.Show(r.Sorted()))
+	c.class("late_branch_reference_answered")
+	// USE / dolt_checkout went through: go back to where the model thinks the session is, with the
+	// same kind of statement (also not asserted)
+	if strings.HasPrefix(q, "USE") || strings.HasPrefix(q, "CALL") {
+		back := "USE `" + c.m.dbn + "`"
+		if s.revdb != "" {
+			back = "USE `" + c.m.dbn + "/" + s.revdb + "`"
+		}
+		if err := s.conn.Exec(back); err != nil {
+			c.fail("[%s] %s: %v", s.name, back, err)
+		}
+		c.logf("%s: %s -> ok", s.name, back)
+	}
+}
+
+// readAndCompare runs the SELECT q of session s over (tgt, working table or head) and compares the
+// result with the model: snapshot (+) own writes.
+func (c *txCase) readAndCompare(s *txSess, sc *txSchema, tgt txTarget, head bool, q string, pk int) {
 	want := c.m.view(s, tgt, head)
 	if pk != 0 {
 		f := vsql.NewTable(sc.cols, 1)
@@ -405,11 +421,87 @@ func (c *txCase) doRead(s *txSess) {
 			}
 		}
 	}
+}
+
+// sweepSnapshot reads every table of every branch of s's snapshot, working set and head, and
+// compares each with the model.
+func (c *txCase) sweepSnapshot(s *txSess) {
+	for _, b := range s.snap.branches {
+		for _, sc := range c.m.db.schemas {
+			tgt := txTarget{b, sc.name}
+			c.readAndCompare(s, sc, tgt, false, "SELECT "+sc.colList()+" FROM "+c.workingRef(s, tgt, false), 0)
+			c.readAndCompare(s, sc, tgt, true, "SELECT "+sc.colList()+" FROM "+sc.name+" AS OF '"+b+"'", 0)
+		}
+	}
+}
+
+func (c *txCase) doRead(s *txSess) {
+	rt := c.rt
+	c.m.begin(s)
+	sc := c.m.db.schemas[rapid.IntRange(0, len(c.m.db.schemas)-1).Draw(rt, "read.table")]
+	nb := len(c.m.db.branches)
+	variants := []string{"cur", "cur", "cur", "curq"}
+	if nb > 1 {
+		variants = append(variants, "other", "other", "asof", "asof", "asofhead")
+	} else {
+		variants = append(variants, "asofhead")
+	}
+	v := rapid.SampledFrom(variants).Draw(rt, "read.variant")
+	tgt := txTarget{s.cur(), sc.name}
+	head := false
+	var ref string
+	// half of the reads inside a transaction go back to something the transaction has read before
+	if n := len(s.readOrder); s.inTx && n > 0 && rapid.IntRange(0, 9).Draw(rt, "read.again") < 5 {
+		prev := s.readOrder[rapid.IntRange(0, n-1).Draw(rt, "read.prev")]
+		tgt, head = prev.tgt, prev.head
+		sc = c.m.db.schema(tgt.table)
+		v = "again"
+	}
+	// a branch that another session created after this transaction's snapshot: referencing it must
+	// not move the snapshot (see readOutsideSnapshot)
+	if late := c.lateBranches(s); len(late) > 0 && s.lateRefs < 2 && rapid.IntRange(0, 9).Draw(rt, "read.late") < 6 {
+		c.readOutsideSnapshot(s, sc, rapid.SampledFrom(late).Draw(rt, "read.latebranch"))
+		return
+	}
+	switch v {
+	case "again":
+		if head {
+			ref = tgt.table + " AS OF '" + tgt.branch + "'"
+		} else {
+			ref = c.workingRef(s, tgt, false)
+		}
+	case "cur":
+		ref = tgt.table
+	case "curq":
+		ref = c.qualified(tgt.branch, tgt.table)
+	case "other":
+		tgt.branch = rapid.SampledFrom(s.snap.branches).Draw(rt, "read.branch")
+		ref = c.qualified(tgt.branch, tgt.table)
+	case "asof":
+		tgt.branch = rapid.SampledFrom(s.snap.branches).Draw(rt, "read.branch")
+		head = true
+		ref = tgt.table + " AS OF '" + tgt.branch + "'"
+	case "asofhead":
+		head = true
+		ref = tgt.table + " AS OF 'HEAD'"
+	}
+	q := "SELECT " + sc.colList() + " FROM " + ref
+	pk := 0
+	if rapid.IntRange(0, 3).Draw(rt, "read.point") == 0 {
+		pk = rapid.IntRange(1, c.cfg.pkMax).Draw(rt, "read.pk")
+		q += fmt.Sprintf(" WHERE %s=%d", sc.cols[0], pk)
+	}
+	c.readAndCompare(s, sc, tgt, head, q, pk)
 	c.afterStmt(s, false)
 }
 
 func (c *txCase) doWrite(s *txSess) {
 	rt := c.rt
+	c.m.begin(s)
+	inSnap := map[string]bool{}
+	for _, sb := range s.snap.branches {
+		inSnap[sb] = true
+	}
 	b := s.cur()
 	sc := c.m.db.schemas[rapid.IntRange(0, len(c.m.db.schemas)-1).Draw(rt, "write.table")]
 	// working tables that some other open transaction has read: writing there (and committing)
@@ -418,7 +510,7 @@ func (c *txCase) doWrite(s *txSess) {
 	for _, o := range c.sess {
 		if o != s && o.inTx && (!o.ac || o.explicit) {
 			for _, rk := range o.readOrder {
-				if !rk.head {
+				if !rk.head && inSnap[rk.tgt.branch] {
 					hot = append(hot, rk.tgt)
 				}
 			}
@@ -438,7 +530,7 @@ func (c *txCase) doWrite(s *txSess) {
 			b, sc = h.branch, c.m.db.schema(h.table)
 		}
 	} else if c.cfg.crossBranchWrites && len(c.m.db.branches) > 1 && rapid.IntRange(0, 5).Draw(rt, "write.other") == 0 {
-		b = rapid.SampledFrom(c.m.db.branches).Draw(rt, "write.branch")
+		b = rapid.SampledFrom(s.snap.branches).Draw(rt, "write.branch")
 	}
 	tgt := txTarget{b, sc.name}
 	c.m.begin(s)
@@ -614,7 +706,8 @@ func (c *txCase) doSwitch(s *txSess) {
 		c.doRead(s)
 		return
 	}
-	b := rapid.SampledFrom(c.m.db.branches).Draw(rt, "switch.branch")
+	c.m.begin(s)
+	b := rapid.SampledFrom(s.snap.branches).Draw(rt, "switch.branch")
 	var q string
 	switch {
 	case s.revdb != "" && rapid.IntRange(0, 2).Draw(rt, "switch.base") == 0:
@@ -820,6 +913,37 @@ func (c *txCase) doDoltCommit(s *txSess) {
 	}
 }
 
+// doNewBranch creates a branch from the head of an existing one through a separate autocommit
+// session. Transactions that are open at this moment do not have the branch in their snapshot.
+func (c *txCase) doNewBranch() {
+	if c.newBranches >= 2 {
+		return
+	}
+	src := rapid.SampledFrom(c.m.db.branches).Draw(c.rt, "newbranch.from")
+	c.newBranches++
+	nb := fmt.Sprintf("n%d", c.newBranches)
+	q := "CALL dolt_branch('" + nb + "','" + src + "')"
+	err := c.obs.Exec(q)
+	c.logf("brancher: %s -> %s", q, errStr(err))
+	if err != nil {
+		c.fail("brancher: %s: %v", q, err)
+	}
+	c.m.db.branches = append(append([]string{}, c.m.db.branches...), nb)
+	for _, sc := range c.m.db.schemas {
+		from, to := txTarget{src, sc.name}, txTarget{nb, sc.name}
+		c.m.db.W[to] = c.m.db.H[from].Clone()
+		c.m.db.H[to] = c.m.db.H[from].Clone()
+	}
+	c.headHash[nb] = c.headHash[src]
+	c.class("branch_created_mid_schedule")
+	for _, o := range c.sess {
+		if o.inTx && (!o.ac || o.explicit) {
+			c.class("branch_created_while_tx_open")
+		}
+	}
+	c.checkCommitted(c.obs, nb, "after creating branch "+nb, true)
+}
+
 // ---------------------------------------------------------------------------------------
 // one generated case
 
@@ -979,6 +1103,8 @@ func txRunCase(rt *rapid.T, srv *vsql.Server, admin *vsql.Session, cfg *txCfg, r
 			c.doSwitch(s)
 		case "doltcommit":
 			c.doDoltCommit(s)
+		case "newbranch":
+			c.doNewBranch()
 		}
 	}
 	// every open transaction commits, in a drawn order
@@ -993,7 +1119,7 @@ func txRunCase(rt *rapid.T, srv *vsql.Server, admin *vsql.Session, cfg *txCfg, r
 	// a fresh session must see exactly the merge of the acknowledged transactions
 	fresh := txOpen(rt, srv, "fresh", dbn)
 	defer fresh.Close()
-	for _, b := range branches {
+	for _, b := range c.m.db.branches {
 		c.checkCommitted(fresh, b, "final state seen by a fresh session", true)
 	}
 
